@@ -50,4 +50,9 @@ def run(ctx):
                 "addition: it never moves back.")
     nm = efreelist.check_allocation_mark(ctx, F)
     ctx.floor("E-FREELIST.mark", "writers of the allocation mark", nm, 1)
+    ctx.explain("E-FREELIST.link: return_preallocated (session end) is interpreted on a model (chunk size 8): the unused rest of "
+                "the chunk is linked slot by slot in front of the thread's own free list, the head (slot index + TERMINALS) is "
+                "published, an empty list is not, the node-count delta is moved out, the allocation mark is untouched.")
+    nl = efreelist.check_return_links(ctx, F)
+    ctx.floor("E-FREELIST.link", "interpreted hand-back situations", nl, 5)
     ctx.not_decided = "validity of handles after failure, success on retry, panics other than AllocResult unwraps"
